@@ -102,6 +102,10 @@ inline uint64_t fnv(const std::string & s, uint64_t h = 1469598103934665603ull)
 {
     return fnv(s.data(), s.size(), h);
 }
+inline uint64_t fnv(const char * s, uint64_t h = 1469598103934665603ull)
+{
+    return fnv(s, std::strlen(s), h);
+}
 template <typename T>
 inline uint64_t mix(uint64_t h, const T & v)
 {
